@@ -30,7 +30,7 @@ TYPES = ["gene", "mRNA", "exon", "CDS"]
 
 def budget(tier):
     if tier == "quick":
-        return {"runs": 1600, "wall": 90, "chunk": 8}
+        return {"runs": 1600, "wall": 120, "chunk": 8}
     return {"runs": 90000, "wall": 1500, "chunk": 8}
 
 
